@@ -153,6 +153,10 @@ def run(ctx):
                 combos = [("TORUS", 1, 1, None, (True,) * D), (None, 1, 1, None, (True, False, True)[:D])]
                 if th or si in (1, 2):
                     combos += [("SAME", 1, 2, None, (False,) * D), ("SAME", 2, 1, None, (False,) * D), ("VALID", 2, 1, None, (True,) * D), ([[1, 1]] * D, 1, 1, [2] * D, (True,) * D), (None, 1, 1, None, (False,) * D)]
+                if th or si == 1:
+                    # integer paddings incl. 0 (the "spatial shape implied by the padding" clause), image dilation with
+                    # string / integer padding, anisotropic stride
+                    combos += [(0, 1, 1, None, (True,) * D), (1, 1, 2, None, (True, False, True)[:D]), (2, 2, 1, None, (False,) * D), ("SAME", 1, 1, [2] * D, (False,) * D), (1, 1, 1, [2] * D, (True,) * D), ("VALID", (1, 2, 1)[:D], 1, None, (True,) * D)]
                 if not th and bias in (False, "mean") and si > 2:
                     combos = combos[:1]
                 for padding, stride, rd, ld, flags in combos:
